@@ -628,6 +628,12 @@ fn get_sub_iovs_offset(iov_lens: &[usize], skip_size: usize) -> (usize, usize) {
     (nr_skip, size)
 }
 
+/// Verification hook: the iovec offset helper used by the send/receive loops.
+#[cfg(feature = "verif-hooks")]
+pub(super) fn verif_get_sub_iovs_offset(iov_lens: &[usize], skip_size: usize) -> (usize, usize) {
+    get_sub_iovs_offset(iov_lens, skip_size)
+}
+
 #[cfg(test)]
 mod tests {
     use super::*;
